@@ -847,7 +847,9 @@ ICMPv6::naack_type ICMPv6::naack_type::from_option(const option& opt) {
     if (opt.data_size() != 6) {
         throw malformed_option();
     }
-    return naack_type(*opt.data_ptr(), opt.data_ptr()[1]);
+    naack_type output(*opt.data_ptr(), opt.data_ptr()[1]);
+    std::copy(opt.data_ptr() + 2, opt.data_ptr() + 6, output.reserved);
+    return output;
 }
 
 ICMPv6::lladdr_type ICMPv6::lladdr_type::from_option(const option& opt) {
